@@ -939,8 +939,9 @@ def run(ctx):
     ctx.cov["finding_keys_seen"] = sorted(findings)
     for key, (line, s, what) in sorted(findings.items()):
         if binp is not None and drv is not None and ctx.match_known(key) is None:
+            # not (yet) recorded: minimise and keep the program as a regression case
             line = shrink(ctx, binp, drv, line, lambda l, m, i: any(k2 == key for (_, k2, _) in oracle(l, i)))
-        store_corpus(key.replace("/", "_").replace(":", "-").replace("*", "x"), line, what)
+            store_corpus(key.replace("/", "_").replace(":", "-").replace("*", "x"), line, what)
         ctx.violation(what, {"program": line, "step": s, "key": key, "rerun": f"echo '0 ckks {line}' | harness/target/ovf/pvh ckks"}, True, key=key)
     if disagree:
         line, k, mv, iv = disagree[0]
